@@ -169,7 +169,7 @@ func initHarnessExternals() {
 			if i.pos < len(i.script) {
 				// already checked by the parent path: keep only the assumption
 				if _, ok := a[1].(bool); !ok {
-					i.solver.Assert(a[1].(*Sym).t)
+					i.pcAssert(a[1].(*Sym).t)
 				}
 				return nil
 			}
@@ -221,6 +221,35 @@ func initHarnessExternals() {
 		"verifYield":  func(fr *frame, a []value) value { fr.i.yield(); return nil },
 		"verifStop": func(fr *frame, a []value) value {
 			panic(pathAbort{kind: abortDone})
+		},
+		"verifSetClock": func(fr *frame, a []value) value {
+			fr.i.fixedClock = a[0]
+			fr.i.hasFixedClock = true
+			return nil
+		},
+		"verifAnd": func(fr *frame, a []value) value {
+			var r value = true
+			for _, x := range a[0].([]value) {
+				r = fr.i.and2(r, x)
+			}
+			return r
+		},
+		"verifOr": func(fr *frame, a []value) value {
+			var r value = false
+			for _, x := range a[0].([]value) {
+				r = fr.i.not(fr.i.and2(fr.i.not(r), fr.i.not(x)))
+			}
+			return r
+		},
+		"verifIte64": func(fr *frame, a []value) value {
+			i := fr.i
+			if b, ok := a[0].(bool); ok {
+				if b {
+					return a[1]
+				}
+				return a[2]
+			}
+			return unterm(i.tc.Mk("ite", SBV64, i.term(a[0]), i.term(a[1]), i.term(a[2])), types.Uint64)
 		},
 		"verifIsSymbolic": func(fr *frame, a []value) value { return true },
 		"verifSameObject": func(fr *frame, a []value) value {
